@@ -20,7 +20,7 @@ type C02Case struct {
 
 const c02Rule = "generator: valid configuration (every switch, allow-all/discrete/wildcard origins, Methods incl. * and lower-case/normalisable spellings, RequestHeaders incl. * and Authorization in several cases/orders) " +
 	"x 6-20 browser intents derived from the configuration (allowed origin 70% / near-miss; safelisted, listed, spelling-variant, unlisted method; random subset of {listed names, authorization, x-unlisted, x-foo}; credentials include/omit; private-network target) " +
-	"x ACRH perturbation in {none, SP after comma, OWS around, one element per line, empty elements, two padded lines, empty elements with one OWS byte per side (SP / HTAB variants)}; each intent is run with debug off and on. evaluations = browser runs compared with Permits(cfg,intent). " +
+	"x one of 6 sets of headers a browser sends of its own accord (none; Fetch Metadata with Sec-Fetch-Site cross-site or same-site, User-Agent, Accept*, Referer, client hints, DNT/GPC; a client without Fetch Metadata) x ACRH perturbation in {none, SP after comma, OWS around, one element per line, empty elements, two padded lines, empty elements with one OWS byte per side (SP / HTAB variants)}; each intent is run with debug off and on. evaluations = browser runs compared with Permits(cfg,intent). " +
 	"non-trivial = intent needs a preflight and its origin is allowed (verdict decided by the method/header/credentials/PNA step), or the verdict is success; distinct by (configuration, intent)."
 
 func genIntent(t *rapid.T, c Cfg, p reqPools) Intent {
@@ -70,6 +70,7 @@ func genIntent(t *rapid.T, c Cfg, p reqPools) Intent {
 	in.PNA = chance(t, "pna", pnaPct)
 	in.Perturb = uniform(t, "perturb", 8)
 	in.HostLikeOrigin = chance(t, "hostlikeorigin", 12)
+	in.Ambient = uniform(t, "ambient", nAmbient)
 	return in
 }
 
